@@ -9,6 +9,10 @@ CLAIMED = {
    ref='DESIGN.md section 5 (C11)',
    note='Trusted: the solver stand-in (dst/solver_stub.py, validated by chi\'s own sundials tests: 511/520 pass under it), the reference transition function in dst/props/c11.py for documented effects of each operation; ambiguous sequences are not executed.'),
 }
+CLAIMED['C08'] = dict(
+   text='Seeded exploration of fix / re-fix / release / rename histories on every reducible kind of object (4 error models, SBML/PKPD mechanistic models with routes and regimens, all population models incl. composed and covariate ones, LogLikelihood, PredictiveModel, PopulationPredictiveModel) against a never-fixed twin built from the same recipe: names and counts equal the original list minus the fixed indices, every evaluation (value, pointwise, seeded samples, sensitivities restricted to the free entries, simulate +/- sensitivities) at the free values equals the twin at the substituted full vector, including under injected solver failures. Sampling, not proof.',
+   ref='DESIGN.md section 5 (C08)',
+   note='Trusted: solver stand-in; the twin only sees the current dict, so order-independence and release-restores follow from the comparison; the ProblemModellingController is not covered yet.')
 NA = {
  'C01': 'pure function of grids, observations and parameters: no history, schedule, fault or process in the statement; deciding it needs input generation against a reference likelihood (property-based testing), a different technique',
  'C02': 'pure function of composition, data and parameter vector; nothing for a simulator to control',
